@@ -32,7 +32,7 @@ MARK = (False, True)
 EPS_LISTS = ([0.1], [0.1, 0.1], [0.01, 5.0], 0.25, [1e-6], [1e3], [0.3, 0.7, 0.9])
 
 
-SIZES = (31, 32, 33, 63, 64, 65, 100, 127, 128, 129, 255, 256, 257, 1000, 1024, 1025)
+SIZES = tuple(range(13, 35)) + (63, 64, 65, 100, 127, 128, 129, 255, 256, 257, 1000, 1024, 1025)
 THRESHOLD_POS = (7, 8, 15, 16, 31, 32, 33, 63, 64, 65, 99, 100, 127, 128, 129, 255, 256, 257, 511, 512, 999, 1000, 1023, 1024)
 
 
@@ -365,12 +365,15 @@ def _shard(shard, col: Collector):
         pos = sorted(set([0, 1, 2, m // 2, m - 2, m - 1] + [q for q in THRESHOLD_POS if q < m]))
         base = [1.0] * m
         vs = [tuple(base) + (True,), tuple(base) + (False,)]
+        import math
+        # replacement values: clearly different, one ulp / 1e-9 apart (equal in single precision), beyond the single-precision range
+        repl = (0.0, 2.0) if m > 300 else (0.0, 2.0, math.nextafter(1.0, 2.0), 1.0 - 1e-9, 1e39, -1e39, 1e-46)
         for i in pos:
-            for a in (0.0, 2.0):
+            for a in repl:
                 v = list(base)
                 v[i] = a
                 vs.append(tuple(v) + (True,))
-                if i != m - 1:
+                if i != m - 1 and a in (0.0, 2.0):
                     for b in (0.0, 2.0):
                         w = list(v)
                         w[m - 1] = b
